@@ -140,7 +140,6 @@ def t2_peek_then_take(ctx, fx, s):
         return False
     p0 = max(peeks, key=lambda x: len(f.dom[x]))
     # consuming calls between the dominating peek and the site
-    between = [x for x in f.reachable([f.blocks[p0]["term"]["t"]], avoid=[b]) if x in f.dom[b] or True]
     consuming = 0
     for x in f.live_blocks:
         if x == p0 or x == b:
@@ -239,7 +238,59 @@ def t2_bounds_after_len_check(ctx, fx, s):
     return False
 
 
-T2 = {"index-after-ensure": t2_index_after_ensure, "bounds-after-len-check": t2_bounds_after_len_check, "peek-then-take": t2_peek_then_take, "keynode-scalar-construction": t2_keynode,
+def t2_index_len_decrement(ctx, fx, s):
+    """`v[idx]` where idx = V - k (k >= 1, checked) and V is `v.len()` or a loop variable whose every definition is `v.len()` or a
+    decrement of itself: then V <= len and, past the (separately discharged) overflow check, idx < len.  `v` is not shrunk between the
+    `len()` call and the use."""
+    f, b = s.f, s.b
+    if len(s.deep_ops) < 2:
+        return False
+    coll, idx = s.deep_ops[0], s.deep_ops[1]
+    if not (idx[0] == "field" and idx[2] == "0" and idx[1][0] == "bin" and idx[1][1] == "SubWithOverflow"):
+        return False
+    V, k = idx[1][2], idx[1][3]
+    kk = k[1] if k[0] == "const" and isinstance(k[1], int) else None
+    if not kk or kk < 1:
+        return False
+    lens = []
+
+    def is_len(x):
+        if x[0] == "call" and last_seg(x[1]) == "len" and x[2] and x[2][0] == coll:
+            lens.append(x[3] if len(x) > 3 else None)
+            return True
+        return False
+
+    def ok_alt(x, phi_local):
+        if is_len(x):
+            return True
+        if x[0] == "call" and last_seg(x[1]) in ("saturating_sub",) and x[2] and x[2][0] == ("local", phi_local):
+            return True
+        if x[0] == "field" and x[1][0] == "bin" and x[1][1] == "SubWithOverflow" and x[1][2] == ("local", phi_local):
+            return True
+        return False
+    if V[0] == "phi":
+        if not all(ok_alt(a, V[1]) for a in V[2]):
+            return False
+    elif not is_len(V):
+        return False
+    lenblocks = [x for x in lens if x is not None]
+    if not lenblocks:
+        return False
+    # the overflow check of this very subtraction must exist and dominate (it is a census site of its own)
+    subs = [bb for bb in f.live_blocks if f.blocks[bb]["term"]["k"] == "assert" and f.blocks[bb]["term"].get("ak") == "overflow:Sub" and f.dominates(bb, b)]
+    if not subs:
+        return False
+    # no shrinking of the collection between len() and the use
+    for cb, t in f.calls():
+        if last_seg(fx.callee(t)) in ("truncate", "clear", "drain", "pop", "remove", "split_off", "swap_remove", "retain") and t["args"]:
+            with f.deep():
+                a0 = f.sym_operand(t["args"][0])
+            if sym_contains(a0, lambda n: n == coll) and cb != b and not must_pass(f, [cb], lenblocks, to_blocks=[b]):
+                return False
+    return True
+
+
+T2 = {"index-len-decrement": t2_index_len_decrement, "index-after-ensure": t2_index_after_ensure, "bounds-after-len-check": t2_bounds_after_len_check, "peek-then-take": t2_peek_then_take, "keynode-scalar-construction": t2_keynode,
       "slice-after-starts-with": t2_slice_after_starts_with, "anchor-store-borrow-scope": t2_borrow_scope}
 
 
